@@ -1,15 +1,13 @@
-\* exhaustive: 3 client ids, at most 5 announcements, timers fired by the environment (hook semantics)
+\* generation: tlc -simulate num=N -depth 2501 ; 16 ids, histories of 2500 steps
 CONSTANTS
-  Ids = {1, 2, 3}
+  Ids = {1, 2, 3, 4, 5, 6, 7, 8, 9, 10, 11, 12, 13, 14, 15, 16}
   TimeoutOn = TRUE
   RealTime = FALSE
-  MaxSerial = 5
+  MaxSerial = 0
   MaxNow = 0
-  GenDepth = 0
+  GenDepth = 2500
 INIT Init
-NEXT Next
-VIEW View
-CONSTRAINT Bounded
+NEXT GenNext
 INVARIANT LedgerExact
 INVARIANT LedgerData
 INVARIANT LedgerTimers
@@ -20,3 +18,4 @@ INVARIANT InUseAgrees
 INVARIANT NoReadyLeft
 INVARIANT NoOverdue
 INVARIANT SerialsUnique
+INVARIANT GenEmit
